@@ -13,7 +13,7 @@ DISTINCT_RULE = (
     "exception at one callback invocation (strategy x callback kind x index, user middleware, raw-data / sports-data / custom-event callbacks) and comparison of every other "
     "strategy's received sequence with the uninjected run; distinct = (differential shape) and (callback kind, injected strategy position) cells"
 )
-RULES = ["differential", "injection", "mw-before-strategies", "live-callbacks"]
+RULES = ["differential", "injection", "mw-before-strategies", "live-callbacks", "sports-callbacks"]
 MINIMA = {"quick": {"rule_differential": 500, "rule_injection": 500, "rule_live-callbacks": 100}, "thorough": {"rule_differential": 10000}}
 ASSUMPTIONS = [
     "ledger = per order (market, runner, side, type, price, size, status path, fragments, buckets, timestamps, profit), ids replaced by ordinals",
@@ -29,6 +29,7 @@ def plan(tier, seed):
     m = 2000 if tier == "quick" else 40000
     cases += [{"mode": "inject", "seed": seed, "idx": i} for i in range(m)]
     cases += [{"mode": "live", "seed": seed, "idx": i} for i in range(120 if tier == "quick" else 1200)]
+    cases += [{"mode": "sports", "seed": seed, "idx": i} for i in range(200 if tier == "quick" else 3000)]
     # directed case for the listed finding C13-second-stream-replays-market
     cases.insert(0, {"mode": "diff", "seed": seed, "idx": 5, "separate": True, "directed": True})
     return cases
@@ -115,6 +116,9 @@ def run_diff(desc, out):
         tr = simrun.run_case(c)
         if O.abort_violation(tr, out):
             return
+        for sw in tr.swallowed:
+            # nobody injected anything here: the simulation's own middleware raised, matching of that update was skipped
+            out.v("simulated-middleware-raised", {"exc": sw["type"], "where": sw["stack"][-1] if sw["stack"] else "?"}, swallowed=sw, variant=name)
         ledgers[name] = (ledger(tr, "A", "end"), ledger(tr, "A", "closed"))
     out.rule("differential")
     out.d("diff:%s:%d:%d" % (desc["separate"], len(ledgers["A"][0]), len(case["markets"])))
@@ -300,8 +304,78 @@ def run_live(desc, out):
         livecases.finish(w)
 
 
+def run_sports(desc, out):
+    """sports-data callbacks in simulation: SimulatedSportsDataMiddleware over a synthetic cricket file; one strategy
+    raises in check_sports_data / process_sports_data, the other must still receive every sports update once"""
+    import json
+    import os
+    import shutil
+    import tempfile
+    from flumine import BaseStrategy
+    from flumine.markets.middleware import SimulatedSportsDataMiddleware
+    from .. import marketgen as G
+
+    rng = simgen.mk_rng(desc["seed"], desc["idx"], 133)
+    mid = "1.2%08d" % rng.randint(0, 99999)
+    d = G.Director(rng, mid, {"p_inplay": 0.5, "n_pre": (6, 14), "spacing_ms": (500, 1000, 2000), "p_removal": 0.0})
+    mf = d.run()
+    pts = [l["pt"] for l in mf.lines]
+    sdir = tempfile.mkdtemp(prefix="vfsports_")
+    try:
+        n_sd = rng.randint(2, 8)
+        sd_pts = sorted(rng.randint(pts[0], pts[-2]) for _ in range(n_sd))
+        with open(os.path.join(sdir, mid), "w") as f:
+            for i, pt in enumerate(sd_pts):
+                f.write(json.dumps({"op": "ccm", "id": 2, "clk": str(i), "pt": pt, "cc": [{"eventId": "30000001", "marketId": mid, "fixtureInfo": {"fixtureStatus": "IN_PLAY", "eventStatus": "BALL_IN_PROGRESS", "i": i}}]}) + "\n")
+        bad_kind = rng.choice(("check_sports", "sports"))
+        bad_n = rng.randrange(n_sd)
+        got = {"X": [], "Y": []}
+
+        def mk(name, bad):
+            class Rec(BaseStrategy):
+                def check_market_book(self, market, market_book):
+                    return True
+
+                def check_sports_data(self, market, sports_data):
+                    got[name].append(("check", sports_data.publish_time_epoch))
+                    if bad and bad_kind == "check_sports" and sum(1 for g in got[name] if g[0] == "check") - 1 == bad_n:
+                        raise ValueError("injected check_sports_data")
+                    return True
+
+                def process_sports_data(self, market, sports_data):
+                    got[name].append(("process", sports_data.publish_time_epoch))
+                    if bad and bad_kind == "sports" and sum(1 for g in got[name] if g[0] == "process") - 1 == bad_n:
+                        raise ValueError("injected process_sports_data")
+
+            return lambda tr, fw, base_filter: Rec(market_filter=dict(base_filter), name=name)
+
+        order = rng.random() < 0.5
+        extras = [mk("X", True), mk("Y", False)]
+        if not order:
+            extras.reverse()
+        case = {"seed": desc["seed"], "idx": desc["idx"], "markets": [{"id": mid, "text": mf.text()}], "strategies": [], "_middlewares": [lambda tr: SimulatedSportsDataMiddleware("cricketSubscription", sdir)]}
+        tr = simrun.run_case(case, extra_strategies=extras)
+        tags = {"callback": bad_kind, "target": "X"}
+        out.rule("sports-callbacks")
+        out.d("sports:%s:%s" % (bad_kind, order))
+        if tr.abort:
+            out.v("injected-exception-escaped-run", tags, abort=tr.abort)
+            return
+        # an update is delivered once the market clock has passed it (strictly); the last ones may never be
+        last = pts[-2] if mf.lines[-1]["mc"][0].get("marketDefinition", {}).get("status") == "CLOSED" else pts[-1]
+        exp = [p_ for p_ in sd_pts if p_ < last]
+        y_proc = [g[1] for g in got["Y"] if g[0] == "process"]
+        if y_proc != exp:
+            out.v("other-strategy-delivery-changed", tags, got=y_proc, expected=exp)
+    finally:
+        shutil.rmtree(sdir, ignore_errors=True)
+
+
 def run(desc):
     out = O.Out(PROPERTY)
+    if desc["mode"] == "sports":
+        run_sports(desc, out)
+        return out.result()
     if desc["mode"] == "diff":
         run_diff(desc, out)
     elif desc["mode"] == "inject":
